@@ -150,3 +150,15 @@ func (ex *Exec) urlError(fr *Frame, req Struct, reqT types.Type, inner Iface) Va
 	var cell Value = ue
 	return Iface{t: types.NewPointer(ueT), v: &cell}
 }
+
+// libp2phttp discovery (well-known endpoint over the network) is not modelled:
+// NamespacedClient reports that the peer is not a libp2p-HTTP server, which is
+// the documented trigger of the plain-HTTP fallback in ipnisync.NewSyncer.
+func init() {
+	extraIntrinsics = append(extraIntrinsics, func(p *Program) {
+		p.reg("(*github.com/libp2p/go-libp2p/p2p/http.Host).NamespacedClient", func(ex *Exec, fr *Frame, args []Value) Value {
+			ct := ex.p.namedType("net/http", "Client")
+			return Tuple{zero(ct), ex.newErrorString("model: peer does not serve the libp2p well-known resource")}
+		})
+	})
+}
